@@ -26,7 +26,8 @@ func fixedSchema() *gqlgen.SchemaDesc {
 		{Kind: "enum", Name: "Mood", Values: []gqlgen.EnumValDesc{{Name: "HAPPY", Value: gqlgen.StrVal("happy")}, {Name: "SAD", Value: gqlgen.IntVal(2)}}},
 		{Kind: "object", Name: "Query", Fields: []gqlgen.FieldDesc{
 			{Name: "me", Type: NN(N("Person"))}, {Name: "maybe", Type: N("Person")}, {Name: "pet", Type: N("Pet"), Args: k},
-			{Name: "animals", Type: L(N("Animal"))}, {Name: "n", Type: NN(N("Int"))}, {Name: "f", Type: N("Float")}}},
+			{Name: "animals", Type: L(N("Animal"))}, {Name: "n", Type: NN(N("Int"))}, {Name: "f", Type: N("Float")},
+			{Name: "req", Type: N("Int"), Args: []gqlgen.ArgDesc{{Name: "r", Type: NN(N("Int"))}}}}},
 		{Kind: "object", Name: "Mutation", Fields: []gqlgen.FieldDesc{
 			{Name: "set", Type: NN(N("Person"))}, {Name: "inc", Type: N("Int")}, {Name: "must", Type: NN(N("Int"))}}},
 	}}
@@ -53,6 +54,12 @@ var fixedPairs = []fixedPair{
 	{Query: `{ maybe { maybePets { name ... on Cat { lives friend { name } } } } }`},
 	{Query: `{ pet { age } pet { name } ... on Query { pet { ... on Cat { lives } } } }`},
 	{Query: `{ x: n y: n me { a: name b: name } }`},
+	// a defaulted variable at a non-null argument: absent (default), a value, explicitly null (field error)
+	{Query: `query($nd: Int = 7) { req(r: $nd) maybe { name } }`},
+	{Query: `query($nd: Int = 7) { req(r: $nd) maybe { name } }`, Vars: map[string]interface{}{"nd": 3}},
+	{Query: `query($nd: Int = 7) { req(r: $nd) maybe { name } }`, Vars: map[string]interface{}{"nd": nil}},
+	{Query: `query($bn: Boolean! = true) { n @include(if: $bn) f }`, Vars: map[string]interface{}{"bn": nil}},
+	{Query: `query($bd: Boolean = true) { n @skip(if: $bd) f }`, Vars: map[string]interface{}{"bd": false}},
 	// one field node merged with different partners in different places (memo key = type + every selection position)
 	{Query: `{ me { ...F } maybe { ...F friend { id } } } fragment F on Person { friend { name } }`},
 	{Query: `{ me { ...F friend { id } } maybe { ...F friend { mood } } } fragment F on Person { friend { name } }`},
